@@ -66,10 +66,7 @@ def expected_decl_strings(model):
     """taskid string -> (sorted dep strings, sorted target strings) from the MODEL."""
     out = {}
     for tid, (deps, tars) in model.tasks_decl().items():
-        if tid[0] == "e":
-            name = path_str(tid[1])
-        else:
-            name = "%s:%s" % (tid[0], tid[1])
+        name = model.tid_str(tid)
         out[name] = (sorted(path_str(d) for d in deps), sorted(path_str(t) for t in tars))
     return out
 
@@ -163,6 +160,10 @@ def build_fresh_twin(world_cls, xd, spec, model, source_world, salt=""):
     cur = source_world.contents()
     for loc, v in cur.items():
         raw_set(w2._container(loc[:-1]), loc[-1][1], v)
+    if "f" in w2.rootobj:
+        from ..containers import FUNCS
+        for slot, impl in model.funcs.items():
+            object.__setattr__(w2.rootobj["f"], slot, FUNCS[impl])
     mgr = w2.mgr
     T = xd.tasks
     for tid in model.order:
@@ -177,7 +178,7 @@ def build_fresh_twin(world_cls, xd, spec, model, source_world, salt=""):
             for t in ft["targets"]:
                 ttar.update(w2.ref(p) for p in prefixes(t))
             act = FtAction(w2.basecont, tid[1], ft["deps"], ft["targets"], ft["coefs"])
-            task = T.FunctionTask("f:%s" % tid[1], act, ttar, tdeps)
+            task = T.FunctionTask(w2.ref(ft["targets"][0]) if ft.get("reftid") else "f:%s" % tid[1], act, ttar, tdeps)
             mgr.register(task)
             w2.ftasks[tid[1]] = task
         else:
